@@ -13,3 +13,9 @@ func verifOnPoll(context.Context) {}
 func verifOnChild(context.Context) {}
 
 func verifOnIntern(string, Atom, int) {}
+
+func verifOnActivate(*clause, []Term, *Env) {}
+
+func verifOnInstr(opcode) {}
+
+func verifOnHeadDone(*Env) {}
